@@ -104,6 +104,40 @@ func (h hostRouter) RoundTrip(r *http.Request) (*http.Response, error) {
 	return nil, fmt.Errorf("no such host in the harness: %s", r.URL.Host)
 }
 
+// askLSP records which logs the service asks its storage about.
+type askLSP struct {
+	inner persistence.LogStatePersistence
+	mu    sync.Mutex
+	ids   map[string]int
+}
+
+func (a *askLSP) Init() error             { return a.inner.Init() }
+func (a *askLSP) Logs() ([]string, error) { return a.inner.Logs() }
+func (a *askLSP) ReadOps(id string) (persistence.LogStateReadOps, error) {
+	a.mu.Lock()
+	a.ids[id]++
+	a.mu.Unlock()
+	return a.inner.ReadOps(id)
+}
+func (a *askLSP) WriteOps(id string) (persistence.LogStateWriteOps, error) { return a.inner.WriteOps(id) }
+
+// distRec is a stub distributor: it records the paths it is sent PUTs for and answers 200.
+type distRec struct {
+	mu   sync.Mutex
+	puts map[string]int
+}
+
+func (d *distRec) RoundTrip(r *http.Request) (*http.Response, error) {
+	if r.Body != nil {
+		io.Copy(io.Discard, r.Body)
+		r.Body.Close()
+	}
+	d.mu.Lock()
+	d.puts[r.Method+" "+r.URL.Path]++
+	d.mu.Unlock()
+	return &http.Response{StatusCode: 200, Status: "200 OK", Body: io.NopCloser(strings.NewReader("")), Header: http.Header{}, Request: r}, nil
+}
+
 type omniLog struct {
 	name   string
 	origin string
@@ -134,20 +168,27 @@ func scenarioOmni(t *traceWriter, rng *rand.Rand) {
 	yaml := "Logs:\n"
 	urls := []string{"http://sumdb.invalid", "http://tiles-a.invalid/", "http://tiles-b.invalid/"}
 	feeders := []string{"sumdb", "tiles", "tiles"}
+	pushOnlyOrigin := "omni.example/push-only" // a log that is only ever fed through the bastion: Feeder none, not last in the file
+	pushOnlyID := f_log.ID(pushOnlyOrigin)
 	for i, l := range logs {
 		l.id = f_log.ID(l.origin)
 		yaml += fmt.Sprintf("  - Origin: %s\n    URL: %s\n    PublicKey: %s\n    Feeder: %s\n", l.origin, urls[i], key.vkey, feeders[i])
+		if i == 0 {
+			yaml += fmt.Sprintf("  - Origin: %s\n    URL: http://push-only.invalid/\n    PublicKey: %s\n    Feeder: none\n", pushOnlyOrigin, key.vkey)
+		}
 	}
 	saved := omniwitness.ConfigLogs
 	omniwitness.ConfigLogs = []byte(yaml)
 	defer func() { omniwitness.ConfigLogs = saved }()
-	client := &http.Client{Transport: hostRouter{"sumdb.invalid": sdb, "tiles-a.invalid": stA, "tiles-b.invalid": stB}, Timeout: 5 * time.Second}
+	dstub := &distRec{puts: map[string]int{}}
+	client := &http.Client{Transport: hostRouter{"sumdb.invalid": sdb, "tiles-a.invalid": stA, "tiles-b.invalid": stB, "dist.invalid": dstub}, Timeout: 5 * time.Second}
 
 	wrng := rand.New(rand.NewSource(*flagSeed + 99))
 	skey, _, _ := note.GenerateKey(detReader{wrng}, "omniwit")
 	legacy, _ := note.NewSigner(skey)
 	cosig, _ := f_note.NewSignerForCosignatureV1(skey)
-	opc := omniwitness.OperatorConfig{WitnessKeys: []note.Signer{legacy, cosig}, WitnessVerifier: cosig.Verifier(), FeedInterval: 40 * time.Millisecond}
+	opc := omniwitness.OperatorConfig{WitnessKeys: []note.Signer{legacy, cosig}, WitnessVerifier: cosig.Verifier(), FeedInterval: 40 * time.Millisecond,
+		RestDistributorBaseURL: "http://dist.invalid", DistributeInterval: 100 * time.Millisecond}
 
 	schedQuick := [][]uint64{{3, 200, 255, 256, 257, 600}, {5, 255, 256, 257, 700}, {1, 2, 300, 512, 513}}
 	schedThorough := [][]uint64{{3, 255, 256, 257, 65535, 65536, 65537}, {5, 255, 256, 257, 65535, 65536}, {1, 300, 65536, 65600}}
@@ -179,6 +220,7 @@ func scenarioOmni(t *traceWriter, rng *rand.Rand) {
 				return false, ""
 			}
 		}
+		asked := &askLSP{ids: map[string]int{}}
 		start := func() {
 			var p persistence.LogStatePersistence = mem
 			if storeKind == "sqlfile" {
@@ -198,7 +240,8 @@ func scenarioOmni(t *traceWriter, rng *rand.Rand) {
 			var ctx context.Context
 			ctx, cancel = context.WithCancel(context.Background())
 			done = make(chan error, 1)
-			go func() { done <- omniwitness.Main(ctx, opc, p, ln, client) }()
+			asked.inner = p
+			go func() { done <- omniwitness.Main(ctx, opc, asked, ln, client) }()
 		}
 		stop := func() {
 			cancel()
@@ -295,6 +338,24 @@ func scenarioOmni(t *traceWriter, rng *rand.Rand) {
 				t.line("OM store=%s step=%d.restart log=%s want=%d wantroot=%s => served=%d root=%s valid=%d", storeKind, st, l.name, sched[i][st], hx([]byte(want)), sz, hx([]byte(root)), valid)
 			}
 		}
+		// the distributor is handed every configured log, whatever its feeder type: it asks the witness about each of them
+		// (the push-only log is asked about by nobody else), and pushes the three that have a checkpoint
+		time.Sleep(3 * opc.DistributeInterval)
+		asked.mu.Lock()
+		pa := asked.ids[pushOnlyID]
+		asked.mu.Unlock()
+		dstub.mu.Lock()
+		np := 0
+		for _, l := range logs {
+			for path := range dstub.puts {
+				if strings.Contains(path, l.id) {
+					np++
+					break
+				}
+			}
+		}
+		dstub.mu.Unlock()
+		t.line("OMD store=%s pushonly_asked=%d fed_logs_pushed=%d of=%d", storeKind, b2i(pa > 0), np, len(logs))
 		// fork: tilesA starts serving a history that is not an extension of what was witnessed; with a restart in between
 		l := logs[1]
 		wsz, wroot, _ := served(l)
